@@ -101,7 +101,14 @@ def sendOk (k : Kind) : Bool := k == .ok
 
 /-! ### Node attribute getters -/
 
-/-- `Node.Attribute`: error, or the `*ua.Variant` of the first result (possibly nil) -/
+/-- the Variant the decoder hands out for the first DataValue:
+    `DataValue.Decode` always allocates `d.Value = new(Variant)`, so a DataValue
+    without the Value bit yields the zero Variant (type Null, value nil), never
+    a nil pointer -/
+def decodedVal (v : Val) : Val :=
+  if v.present then v else ⟨true, .null, false, 0⟩
+
+/-- `Node.Attribute`: error, or the `*ua.Variant` of the first result -/
 def nodeAttr (s : Shape) : Option Val :=
   -- res, err := n.c.Read(ctx, req); if err != nil { return nil, err }
   if !sendOk s.kind then none else
@@ -109,21 +116,18 @@ def nodeAttr (s : Shape) : Option Val :=
   -- if len(res.Results) == 0 { return nil, ua.StatusBadUnexpectedError }
   | [] => none
   -- value := res.Results[0].Value; if res.Results[0].Status != ua.StatusOK { return value, status }
-  | st :: _ => if st then some s.val else none
+  | st :: _ => if st then some (decodedVal s.val) else none
 
-/-- `v.Value().(T)` for a scalar Go type T on a possibly nil `*ua.Variant` -/
+/-- `v.Value().(T)` for a scalar Go type T: panics unless the dynamic type is T
+    (a Null variant holds a nil interface, an array holds a slice) -/
 def assertScalar (want : Tid) (v : Val) : Outcome :=
-  -- (*Variant).Value() dereferences the receiver
-  if !v.present then .panic
-  else if v.isArray then .panic           -- the dynamic type is a slice
+  if v.isArray then .panic
   else if v.tid == want then .value else .panic
 
 /-- `ua.NodeClass(v.Int())` -/
 def variantInt (v : Val) : Outcome :=
-  -- m.ArrayLength() dereferences the receiver
-  if !v.present then .panic
   -- if m.ArrayLength() > 0 { return 0 }
-  else if v.isArray && v.arrLen > 0 then .value
+  if v.isArray && v.arrLen > 0 then .value
   -- switch m.Type() { case TypeIDSByte: int64(m.value.(int8)) … case TypeIDInt32: int64(m.value.(int32)) … }
   else if v.isArray && (v.tid == .int32 || v.tid == .sbyte) then .panic   -- the value is an empty slice
   else .value
@@ -254,8 +258,7 @@ def outcome : Op → Shape → Outcome
   | .accessLevel, s => getter s (assertScalar .byte)
   | .userAccessLevel, s => getter s (assertScalar .byte)
   -- ns, ok := v.Value().([]string); if !ok { return nil, errors.Errorf(…) }
-  | .namespaceArray, s => getter s (fun v => if !v.present then .panic
-                                            else if v.isArray && v.tid == .string then .value else .error)
+  | .namespaceArray, s => getter s (fun v => if v.isArray && v.tid == .string then .value else .error)
   -- if v == nil { return nil, errors.Errorf(…) }; eos, ok := v.Value().([]*ua.ExtensionObject); if !ok { error }
   | .subStats, s => getter s (fun _ => .error)    -- (no shape used here carries SubscriptionDiagnostics)
   | .references, s => references s
@@ -286,13 +289,8 @@ def sigOf (op : Op) (s : Shape) : Option String :=
     else if sendOk s.kind && browseLoop s.chain = .panic then some "C21.browsenext-empty-results" else none
   | .nodeClass =>
     match valFrom s with
-    | some v => if !v.present then some "C21.nil-variant"
-                else if v.isArray && v.arrLen = 0 && (v.tid == .int32 || v.tid == .sbyte) then some "C21.nodeclass-empty-int-array"
+    | some v => if v.isArray && v.arrLen = 0 && (v.tid == .int32 || v.tid == .sbyte) then some "C21.nodeclass-empty-int-array"
                 else none
-    | none => none
-  | .namespaceArray =>
-    match valFrom s with
-    | some v => if !v.present then some "C21.nil-variant" else none
     | none => none
   | .browseName => typedSig s .qname "C21.browsename-type-assertion"
   | .description => typedSig s .ltext "C21.description-type-assertion"
@@ -303,8 +301,7 @@ def sigOf (op : Op) (s : Shape) : Option String :=
 where
   typedSig (s : Shape) (want : Tid) (name : String) : Option String :=
     match valFrom s with
-    | some v => if !v.present then some "C21.nil-variant"
-                else if v.isArray || v.tid != want then some name else none
+    | some v => if v.isArray || v.tid != want then some name else none
     | none => none
 
 /-! ### the audited site table -/
@@ -315,80 +312,80 @@ inductive Audit where
   deriving Repr, DecidableEq
 
 def auditedSites : List (Site × Audit) := [
-  (⟨"client.go", "Client.Call", "index", "res.Results[0]"⟩, .safe "len(res.Results) != 1 returns before"),
-  (⟨"client.go", "Client.Namespaces", "assert", "c.atomicNamespaces.Load().([]string)"⟩, .safe "only []string is ever stored (NewClient, setNamespaces)"),
-  (⟨"client.go", "Client.State", "assert", "c.atomicState.Load().(ConnState)"⟩, .safe "only ConnState is ever stored (NewClient, setState)"),
-  (⟨"client.go", "Client.monitor", "index", "availableSeqs[subID]"⟩, .safe "map"),
-  (⟨"client.go", "Client.monitor", "index", "availableSeqs[subIDs[i]]"⟩, .safe "map"),
-  (⟨"client.go", "Client.monitor", "index", "res.Results[i]"⟩, .safe "i ranges over res.Results"),
-  (⟨"client.go", "Client.monitor", "index", "subIDs[i]"⟩, .panics .transferOnReconnect),
-  (⟨"client.go", "Client.monitor", "index", "subIDs[i]"⟩, .panics .transferOnReconnect),
-  (⟨"client.go", "Client.monitor", "index", "subIDs[i]"⟩, .panics .transferOnReconnect),
-  (⟨"client.go", "Client.monitor", "index", "subIDs[i]"⟩, .panics .transferOnReconnect),
-  (⟨"client.go", "Client.publishTimeout", "assert", "c.atomicPublishTimeout.Load().(time.Duration)"⟩, .safe "only time.Duration is ever stored"),
-  (⟨"client.go", "SelectEndpoint", "index", "endpoints[0]"⟩, .safe "len(endpoints) == 0 returns before"),
-  (⟨"client.go", "bySecurityLevel.Less", "index", "a[i]"⟩, .safe "sort.Interface contract"),
-  (⟨"client.go", "bySecurityLevel.Less", "index", "a[j]"⟩, .safe "sort.Interface contract"),
-  (⟨"client.go", "bySecurityLevel.Swap", "index", "a[i]"⟩, .safe "sort.Interface contract"),
-  (⟨"client.go", "bySecurityLevel.Swap", "index", "a[i]"⟩, .safe "sort.Interface contract"),
-  (⟨"client.go", "bySecurityLevel.Swap", "index", "a[j]"⟩, .safe "sort.Interface contract"),
-  (⟨"client.go", "bySecurityLevel.Swap", "index", "a[j]"⟩, .safe "sort.Interface contract"),
-  (⟨"client.go", "cloneBrowseRequest", "index", "descs[i]"⟩, .safe "descs has len(req.NodesToBrowse), request side"),
-  (⟨"client.go", "cloneReadRequest", "index", "rvs[i]"⟩, .safe "rvs has len(req.NodesToRead), request side"),
-  (⟨"client_sub.go", "Client.Subscribe", "index", "c.subs[sub.SubscriptionID]"⟩, .safe "map"),
-  (⟨"client_sub.go", "Client.Subscribe", "index", "c.subs[sub.SubscriptionID]"⟩, .safe "map"),
-  (⟨"client_sub.go", "Client.handleAcks_NeedsSubMuxLock", "index", "res[i]"⟩, .safe "pendingAcks is emptied when the lengths differ"),
-  (⟨"client_sub.go", "Client.notifySubscriptionOfError", "index", "c.subs[subID]"⟩, .safe "map"),
-  (⟨"client_sub.go", "Client.publish", "index", "c.subs[res.SubscriptionID]"⟩, .safe "map"),
-  (⟨"client_sub.go", "Client.recreateSubscription", "index", "c.subs[id]"⟩, .safe "map"),
-  (⟨"client_sub.go", "Client.registerSubscription_NeedsSubMuxLock", "index", "c.subs[sub.SubscriptionID]"⟩, .safe "map"),
-  (⟨"client_sub.go", "Client.registerSubscription_NeedsSubMuxLock", "index", "c.subs[sub.SubscriptionID]"⟩, .safe "map"),
-  (⟨"client_sub.go", "Client.republishSubscription", "index", "c.subs[id]"⟩, .safe "map"),
-  (⟨"monitor/subscription.go", "Subscription.AddMonitorItems", "index", "nodes[i]"⟩, .safe "i ranges over nodes / len(resp.Results) == len(toAdd) checked"),
-  (⟨"monitor/subscription.go", "Subscription.AddMonitorItems", "index", "nodes[i]"⟩, .safe "i ranges over nodes / len(resp.Results) == len(toAdd) checked"),
-  (⟨"monitor/subscription.go", "Subscription.AddMonitorItems", "index", "nodes[i]"⟩, .safe "i ranges over nodes / len(resp.Results) == len(toAdd) checked"),
-  (⟨"monitor/subscription.go", "Subscription.AddMonitorItems", "index", "nodes[i]"⟩, .safe "i ranges over nodes / len(resp.Results) == len(toAdd) checked"),
-  (⟨"monitor/subscription.go", "Subscription.AddMonitorItems", "index", "s.handles[handle]"⟩, .safe "map"),
-  (⟨"monitor/subscription.go", "Subscription.AddMonitorItems", "index", "s.itemLookup[res.MonitoredItemID]"⟩, .safe "map"),
-  (⟨"monitor/subscription.go", "Subscription.AddMonitorItems", "index", "toAdd[i]"⟩, .safe "len(resp.Results) == len(toAdd) checked"),
-  (⟨"monitor/subscription.go", "Subscription.AddMonitorItems", "index", "toAdd[i]"⟩, .safe "len(resp.Results) == len(toAdd) checked"),
-  (⟨"monitor/subscription.go", "Subscription.AddNodeIDs", "index", "requests[i]"⟩, .safe "requests has len(nodes), request side"),
-  (⟨"monitor/subscription.go", "Subscription.RemoveMonitorItems", "index", "s.itemLookup[item.id]"⟩, .safe "map"),
-  (⟨"monitor/subscription.go", "Subscription.pump", "index", "s.handles[item.ClientHandle]"⟩, .safe "map"),
-  (⟨"monitor/subscription.go", "parseNodeSlice", "index", "nodeIDs[i]"⟩, .safe "nodeIDs has len(nodes), request side"),
-  (⟨"node.go", "Node.AccessLevel", "assert", "v.Value().(uint8)"⟩, .panics .accessLevel),
-  (⟨"node.go", "Node.Attribute", "index", "res.Results[0]"⟩, .safe "len(res.Results) == 0 returns before"),
-  (⟨"node.go", "Node.Attribute", "index", "res.Results[0]"⟩, .safe "len(res.Results) == 0 returns before"),
-  (⟨"node.go", "Node.Attribute", "index", "res.Results[0]"⟩, .safe "len(res.Results) == 0 returns before"),
-  (⟨"node.go", "Node.BrowseName", "assert", "v.Value().(*ua.QualifiedName)"⟩, .panics .browseName),
-  (⟨"node.go", "Node.Description", "assert", "v.Value().(*ua.LocalizedText)"⟩, .panics .description),
-  (⟨"node.go", "Node.DisplayName", "assert", "v.Value().(*ua.LocalizedText)"⟩, .panics .displayName),
-  (⟨"node.go", "Node.TranslateBrowsePathsToNodeIDs", "index", "req.BrowsePaths[0]"⟩, .safe "request literal with one element"),
-  (⟨"node.go", "Node.TranslateBrowsePathsToNodeIDs", "index", "req.BrowsePaths[0]"⟩, .safe "request literal with one element"),
-  (⟨"node.go", "Node.TranslateBrowsePathsToNodeIDs", "index", "resp.Results[0]"⟩, .safe "len(resp.Results) == 0 returns before"),
-  (⟨"node.go", "Node.TranslateBrowsePathsToNodeIDs", "index", "resp.Results[0]"⟩, .safe "len(resp.Results) == 0 returns before"),
-  (⟨"node.go", "Node.TranslateBrowsePathsToNodeIDs", "index", "resp.Results[0]"⟩, .safe "len(resp.Results) == 0 returns before"),
-  (⟨"node.go", "Node.TranslateBrowsePathsToNodeIDs", "index", "resp.Results[0]"⟩, .safe "len(resp.Results) == 0 returns before"),
-  (⟨"node.go", "Node.TranslateBrowsePathsToNodeIDs", "index", "resp.Results[0].Targets[0]"⟩, .safe "len(Targets) == 0 returns before"),
-  (⟨"node.go", "Node.UserAccessLevel", "assert", "v.Value().(uint8)"⟩, .panics .userAccessLevel),
-  (⟨"node.go", "Node.browseNext", "index", "results[0]"⟩, .panics .references),
-  (⟨"node.go", "Node.browseNext", "index", "results[0]"⟩, .panics .references),
-  (⟨"node.go", "Node.browseNext", "index", "results[0]"⟩, .panics .references),
-  (⟨"node.go", "Node.browseNext", "index", "results[0]"⟩, .panics .references),
-  (⟨"subscription.go", "Subscription.ModifyMonitoredItems", "index", "req.ItemsToModify[i]"⟩, .panics .subModifyItems),
-  (⟨"subscription.go", "Subscription.ModifyMonitoredItems", "index", "req.ItemsToModify[i]"⟩, .panics .subModifyItems),
-  (⟨"subscription.go", "Subscription.ModifyMonitoredItems", "index", "s.items[id]"⟩, .safe "map"),
-  (⟨"subscription.go", "Subscription.ModifyMonitoredItems", "index", "s.items[id]"⟩, .safe "map; the entry exists for every i < len(items) (checked before sending)"),
-  (⟨"subscription.go", "Subscription.Monitor", "index", "res.Results[i]"⟩, .panics .subMonitor),
-  (⟨"subscription.go", "Subscription.Monitor", "index", "s.items[result.MonitoredItemID]"⟩, .safe "map"),
-  (⟨"subscription.go", "Subscription.SetMonitoringMode", "index", "s.items[id]"⟩, .safe "map"),
-  (⟨"subscription.go", "Subscription.delete", "index", "res.Results[0]"⟩, .panics .subCancel),
-  (⟨"subscription.go", "Subscription.delete", "index", "res.Results[0]"⟩, .panics .subCancel),
-  (⟨"subscription.go", "Subscription.recreate_monitoredItems", "index", "itemsByTimestamps[mi.ts]"⟩, .safe "map"),
-  (⟨"subscription.go", "Subscription.recreate_monitoredItems", "index", "itemsByTimestamps[mi.ts]"⟩, .safe "map"),
-  (⟨"subscription.go", "Subscription.recreate_monitoredItems", "index", "res.Results[i]"⟩, .panics .recreateItems),
-  (⟨"subscription.go", "Subscription.recreate_monitoredItems", "index", "res.Results[i]"⟩, .panics .recreateItems),
-  (⟨"subscription.go", "Subscription.recreate_monitoredItems", "index", "s.items[res.Results[i].MonitoredItemID]"⟩, .safe "map")
+  (⟨"client.go", "Client.Call", "index", "Results[_]"⟩, .safe "len(res.Results) != 1 returns before"),
+  (⟨"client.go", "Client.Namespaces", "assert", "Load().([]string)"⟩, .safe "only []string is ever stored (NewClient, setNamespaces)"),
+  (⟨"client.go", "Client.State", "assert", "Load().(ConnState)"⟩, .safe "only ConnState is ever stored (NewClient, setState)"),
+  (⟨"client.go", "Client.monitor", "index", "Results[_]"⟩, .safe "i ranges over res.Results"),
+  (⟨"client.go", "Client.monitor", "index", "availableSeqs[_]"⟩, .safe "map"),
+  (⟨"client.go", "Client.monitor", "index", "availableSeqs[_]"⟩, .safe "map"),
+  (⟨"client.go", "Client.monitor", "index", "subIDs[_]"⟩, .panics .transferOnReconnect),
+  (⟨"client.go", "Client.monitor", "index", "subIDs[_]"⟩, .panics .transferOnReconnect),
+  (⟨"client.go", "Client.monitor", "index", "subIDs[_]"⟩, .panics .transferOnReconnect),
+  (⟨"client.go", "Client.monitor", "index", "subIDs[_]"⟩, .panics .transferOnReconnect),
+  (⟨"client.go", "Client.publishTimeout", "assert", "Load().(time.Duration)"⟩, .safe "only time.Duration is ever stored"),
+  (⟨"client.go", "SelectEndpoint", "index", "endpoints[_]"⟩, .safe "len(endpoints) == 0 returns before"),
+  (⟨"client.go", "bySecurityLevel.Less", "index", "a[_]"⟩, .safe "sort.Interface contract"),
+  (⟨"client.go", "bySecurityLevel.Less", "index", "a[_]"⟩, .safe "sort.Interface contract"),
+  (⟨"client.go", "bySecurityLevel.Swap", "index", "a[_]"⟩, .safe "sort.Interface contract"),
+  (⟨"client.go", "bySecurityLevel.Swap", "index", "a[_]"⟩, .safe "sort.Interface contract"),
+  (⟨"client.go", "bySecurityLevel.Swap", "index", "a[_]"⟩, .safe "sort.Interface contract"),
+  (⟨"client.go", "bySecurityLevel.Swap", "index", "a[_]"⟩, .safe "sort.Interface contract"),
+  (⟨"client.go", "cloneBrowseRequest", "index", "descs[_]"⟩, .safe "descs has len(req.NodesToBrowse), request side"),
+  (⟨"client.go", "cloneReadRequest", "index", "rvs[_]"⟩, .safe "rvs has len(req.NodesToRead), request side"),
+  (⟨"client_sub.go", "Client.Subscribe", "index", "subs[_]"⟩, .safe "map"),
+  (⟨"client_sub.go", "Client.Subscribe", "index", "subs[_]"⟩, .safe "map"),
+  (⟨"client_sub.go", "Client.handleAcks_NeedsSubMuxLock", "index", "res[_]"⟩, .safe "pendingAcks is emptied when the lengths differ"),
+  (⟨"client_sub.go", "Client.notifySubscriptionOfError", "index", "subs[_]"⟩, .safe "map"),
+  (⟨"client_sub.go", "Client.publish", "index", "subs[_]"⟩, .safe "map"),
+  (⟨"client_sub.go", "Client.recreateSubscription", "index", "subs[_]"⟩, .safe "map"),
+  (⟨"client_sub.go", "Client.registerSubscription_NeedsSubMuxLock", "index", "subs[_]"⟩, .safe "map"),
+  (⟨"client_sub.go", "Client.registerSubscription_NeedsSubMuxLock", "index", "subs[_]"⟩, .safe "map"),
+  (⟨"client_sub.go", "Client.republishSubscription", "index", "subs[_]"⟩, .safe "map"),
+  (⟨"monitor/subscription.go", "Subscription.AddMonitorItems", "index", "handles[_]"⟩, .safe "map"),
+  (⟨"monitor/subscription.go", "Subscription.AddMonitorItems", "index", "itemLookup[_]"⟩, .safe "map"),
+  (⟨"monitor/subscription.go", "Subscription.AddMonitorItems", "index", "nodes[_]"⟩, .safe "i ranges over nodes / len(resp.Results) == len(toAdd) checked"),
+  (⟨"monitor/subscription.go", "Subscription.AddMonitorItems", "index", "nodes[_]"⟩, .safe "i ranges over nodes / len(resp.Results) == len(toAdd) checked"),
+  (⟨"monitor/subscription.go", "Subscription.AddMonitorItems", "index", "nodes[_]"⟩, .safe "i ranges over nodes / len(resp.Results) == len(toAdd) checked"),
+  (⟨"monitor/subscription.go", "Subscription.AddMonitorItems", "index", "nodes[_]"⟩, .safe "i ranges over nodes / len(resp.Results) == len(toAdd) checked"),
+  (⟨"monitor/subscription.go", "Subscription.AddMonitorItems", "index", "toAdd[_]"⟩, .safe "len(resp.Results) == len(toAdd) checked"),
+  (⟨"monitor/subscription.go", "Subscription.AddMonitorItems", "index", "toAdd[_]"⟩, .safe "len(resp.Results) == len(toAdd) checked"),
+  (⟨"monitor/subscription.go", "Subscription.AddNodeIDs", "index", "requests[_]"⟩, .safe "requests has len(nodes), request side"),
+  (⟨"monitor/subscription.go", "Subscription.RemoveMonitorItems", "index", "itemLookup[_]"⟩, .safe "map"),
+  (⟨"monitor/subscription.go", "Subscription.pump", "index", "handles[_]"⟩, .safe "map"),
+  (⟨"monitor/subscription.go", "parseNodeSlice", "index", "nodeIDs[_]"⟩, .safe "nodeIDs has len(nodes), request side"),
+  (⟨"node.go", "Node.AccessLevel", "assert", "Value().(uint8)"⟩, .panics .accessLevel),
+  (⟨"node.go", "Node.Attribute", "index", "Results[_]"⟩, .safe "len(res.Results) == 0 returns before"),
+  (⟨"node.go", "Node.Attribute", "index", "Results[_]"⟩, .safe "len(res.Results) == 0 returns before"),
+  (⟨"node.go", "Node.Attribute", "index", "Results[_]"⟩, .safe "len(res.Results) == 0 returns before"),
+  (⟨"node.go", "Node.BrowseName", "assert", "Value().(*ua.QualifiedName)"⟩, .panics .browseName),
+  (⟨"node.go", "Node.Description", "assert", "Value().(*ua.LocalizedText)"⟩, .panics .description),
+  (⟨"node.go", "Node.DisplayName", "assert", "Value().(*ua.LocalizedText)"⟩, .panics .displayName),
+  (⟨"node.go", "Node.TranslateBrowsePathsToNodeIDs", "index", "BrowsePaths[_]"⟩, .safe "request literal with one element"),
+  (⟨"node.go", "Node.TranslateBrowsePathsToNodeIDs", "index", "BrowsePaths[_]"⟩, .safe "request literal with one element"),
+  (⟨"node.go", "Node.TranslateBrowsePathsToNodeIDs", "index", "Results[_]"⟩, .safe "len(resp.Results) == 0 returns before"),
+  (⟨"node.go", "Node.TranslateBrowsePathsToNodeIDs", "index", "Results[_]"⟩, .safe "len(resp.Results) == 0 returns before"),
+  (⟨"node.go", "Node.TranslateBrowsePathsToNodeIDs", "index", "Results[_]"⟩, .safe "len(resp.Results) == 0 returns before"),
+  (⟨"node.go", "Node.TranslateBrowsePathsToNodeIDs", "index", "Results[_]"⟩, .safe "len(resp.Results) == 0 returns before"),
+  (⟨"node.go", "Node.TranslateBrowsePathsToNodeIDs", "index", "Targets[_]"⟩, .safe "len(Targets) == 0 returns before"),
+  (⟨"node.go", "Node.UserAccessLevel", "assert", "Value().(uint8)"⟩, .panics .userAccessLevel),
+  (⟨"node.go", "Node.browseNext", "index", "results[_]"⟩, .panics .references),
+  (⟨"node.go", "Node.browseNext", "index", "results[_]"⟩, .panics .references),
+  (⟨"node.go", "Node.browseNext", "index", "results[_]"⟩, .panics .references),
+  (⟨"node.go", "Node.browseNext", "index", "results[_]"⟩, .panics .references),
+  (⟨"subscription.go", "Subscription.ModifyMonitoredItems", "index", "ItemsToModify[_]"⟩, .panics .subModifyItems),
+  (⟨"subscription.go", "Subscription.ModifyMonitoredItems", "index", "ItemsToModify[_]"⟩, .panics .subModifyItems),
+  (⟨"subscription.go", "Subscription.ModifyMonitoredItems", "index", "items[_]"⟩, .safe "map"),
+  (⟨"subscription.go", "Subscription.ModifyMonitoredItems", "index", "items[_]"⟩, .safe "map; the entry exists for every i < len(items) (checked before sending)"),
+  (⟨"subscription.go", "Subscription.Monitor", "index", "Results[_]"⟩, .panics .subMonitor),
+  (⟨"subscription.go", "Subscription.Monitor", "index", "items[_]"⟩, .safe "map"),
+  (⟨"subscription.go", "Subscription.SetMonitoringMode", "index", "items[_]"⟩, .safe "map"),
+  (⟨"subscription.go", "Subscription.delete", "index", "Results[_]"⟩, .panics .subCancel),
+  (⟨"subscription.go", "Subscription.delete", "index", "Results[_]"⟩, .panics .subCancel),
+  (⟨"subscription.go", "Subscription.recreate_monitoredItems", "index", "Results[_]"⟩, .panics .recreateItems),
+  (⟨"subscription.go", "Subscription.recreate_monitoredItems", "index", "Results[_]"⟩, .panics .recreateItems),
+  (⟨"subscription.go", "Subscription.recreate_monitoredItems", "index", "itemsByTimestamps[_]"⟩, .safe "map"),
+  (⟨"subscription.go", "Subscription.recreate_monitoredItems", "index", "itemsByTimestamps[_]"⟩, .safe "map"),
+  (⟨"subscription.go", "Subscription.recreate_monitoredItems", "index", "items[_]"⟩, .safe "map")
 ]
 
 /-- the scalar type a typed getter expects -/
@@ -421,7 +418,6 @@ def witness : Op → Shape
   | .subCancel => { Shape.good with results := [] }
   | .recreateItems => { Shape.good with nReq := 2, results := [true] }
   | .nodeClass => { Shape.good with val := ⟨true, .int32, true, 0⟩ }
-  | .namespaceArray => { Shape.good with val := ⟨false, .null, false, 0⟩ }
   | _ => Shape.good
 
 /-- Bool form of "every `panics op` entry of the audit has a panicking witness" -/
